@@ -1,7 +1,7 @@
 """U4 -- decoder: decode_rmi and the mapping loop nest of decode_regular (R-outline)"""
 import re
 from vx.rs import Fn, LostAnchor
-from .common import emit_struct, emit_error_enum, refpat_for, import_method
+from .common import emit_struct, emit_error_enum, refpat_for, import_method, emit_free_fn, guarded
 
 NAME = 'u4_decode'
 PROPS = ['C06', 'C07', 'C05', 'C02']
@@ -73,21 +73,20 @@ def build(u):
     f = u.get_fn('src/vlq.rs', 'parse_vlq_segment_into')
     u.import_fn(f, 'vlq::parse_vlq_segment_into', 'u1_vlq.ctr', 'u1_vlq')
 
-    f = u.get_fn(D, 'decode_rmi')
-    u.count('R-stub-type', f.rewrite(r'BitVec<u8, Lsb0>', 'BitVec'))
-    u.count('R-shim-call', f.rewrite(r'\b([a-z_]+)\.len\(\) \* 6', r'verif_str_len(\1) * 6', expect=1))
-    u.count('R-shim-call', f.rewrite(r'\b([a-z_]+)\.as_bytes\(\)', r'verif_str_as_bytes(\1)', expect=1))
-    refpat_for(f, u)
-    u.count('R-shim-call', f.rewrite(r'\.enumerate\(\)', '.verif_enumerate()', expect=1))
-    u.count('R-shim-call', f.rewrite(r'\b([a-z_]+)\[(.+?)\.\.(.+?)\]\.store_le::<u8>\(([a-z_]+)\)', r'verif_bits_store_le_u8(\1, \2, \3, \4)', expect=1))
-    u.emit_fn(f, 'decoder::decode_rmi')
+    def prep_rmi(f):
+        u.count('R-stub-type', f.rewrite(r'BitVec<u8, Lsb0>', 'BitVec'))
+        u.count('R-shim-call', f.rewrite(r'\b([a-z_]+)\.len\(\) \* 6', r'verif_str_len(\1) * 6', expect=1))
+        u.count('R-shim-call', f.rewrite(r'\b([a-z_]+)\.as_bytes\(\)', r'verif_str_as_bytes(\1)', expect=1))
+        refpat_for(f, u)
+        u.count('R-shim-call', f.rewrite(r'\.enumerate\(\)', '.verif_enumerate()', expect=1))
+        u.count('R-shim-call', f.rewrite(r'\b([a-z_]+)\[(.+?)\.\.(.+?)\]\.store_le::<u8>\(([a-z_]+)\)', r'verif_bits_store_le_u8(\1, \2, \3, \4)', expect=1))
+    emit_free_fn(u, D, 'decode_rmi', 'decoder::decode_rmi', prep=prep_rmi)
 
-    g = outline_mapping_loop(u)
-    u.count('R-shim-call', g.rewrite(r"\b([a-z_]+)\s*\.split\('(.)'\)", r"verif_split(\1, '\2')", expect=3))
-    u.count('R-shim-call', g.rewrite(r'(?s)\.zip\((.*?)\.chain\(std::iter::repeat\((.*?)\)\)\)', r'.verif_zip_pad(\1, \2)', expect=1))
-    u.count('R-shim-call', g.rewrite(r'\.enumerate\(\)', '.verif_enumerate()', expect=2))
-    u.count('R-shim-call', g.rewrite(r'\b([a-z_]+)\.is_empty\(\)', r'verif_str_is_empty(\1)', expect=2))
-    u.count('R-stub-type', g.rewrite(r'BitVec::new\(\)', 'BitVec::new()'))
-    u.count('R-continue', g.guard_continues())
-    u.count('R-closure', g.annotate_closure('v', 'v: &bool', '(b: bool) ensures b == *v', expect=1))
-    u.emit_fn(g, 'decoder::decode_regular__mappings_loop')
+    def prep_loop(g):
+        u.count('R-shim-call', g.rewrite(r"\b([a-z_]+)\s*\.split\('(.)'\)", r"verif_split(\1, '\2')", expect=3))
+        u.count('R-shim-call', g.rewrite(r'(?s)\.zip\((.*?)\.chain\(std::iter::repeat\((.*?)\)\)\)', r'.verif_zip_pad(\1, \2)', expect=1))
+        u.count('R-shim-call', g.rewrite(r'\.enumerate\(\)', '.verif_enumerate()', expect=2))
+        u.count('R-shim-call', g.rewrite(r'\b([a-z_]+)\.is_empty\(\)', r'verif_str_is_empty(\1)', expect=2))
+        u.count('R-continue', g.guard_continues())
+        u.count('R-closure', g.annotate_closure('v', 'v: &bool', '(b: bool) ensures b == *v', expect=1))
+    guarded(u, 'decoder::decode_regular__mappings_loop', lambda: outline_mapping_loop(u), prep_loop, wrap=lambda: None)
